@@ -48,7 +48,16 @@ let c08_take n toks =
   let rec go n acc toks = if n = 0 then (List.rev acc, toks) else
     match toks with t :: r -> go (n-1) (t :: acc) r | [] -> failwith "short" in
   go n [] toks
-let c08_ints n toks = let (l, r) = c08_take n toks in (List.map (fun s -> c08_z_of_int (int_of_string s)) l, r)
+(* decimal string -> Z, digit by digit (values up to MaxInt64 do not fit an OCaml int) *)
+let c08_z_of_dec (s : string) : z =
+  let neg = String.length s > 0 && s.[0] = '-' in
+  let acc = ref Z0 in
+  String.iteri (fun i ch ->
+      if not (i = 0 && (ch = '-' || ch = '+')) then begin
+        if ch < '0' || ch > '9' then failwith "bad decimal";
+        acc := Z.add (Z.mul !acc (c08_z_of_int 10)) (c08_z_of_int (Char.code ch - 48)) end) s;
+  if neg then (match !acc with Z0 -> Z0 | Zpos p -> Zneg p | Zneg p -> Zpos p) else !acc
+let c08_ints n toks = let (l, r) = c08_take n toks in (List.map c08_z_of_dec l, r)
 let c08_int toks = match toks with t :: r -> (int_of_string t, r) | [] -> failwith "short"
 let rec c08_sels n toks =
   if n = 0 then ([], toks) else
@@ -162,6 +171,17 @@ let c08_ssall (_ : Float64.t arith) (toks : string list) : string =
   let (l, _) = c08_box toks (fun a b s n ->
       match slice_size [z a; z b; z s] (z n) with None -> "P" | Some v -> c08_dec_of_z v) in
   String.concat " " l
+let c08_sslist (_ : Float64.t arith) (toks : string list) : string =
+  let (k, r) = c08_int toks in
+  let rec go k r acc =
+    if k = 0 then List.rev acc else
+      match r with
+      | a :: b :: s :: n :: r ->
+        let v = (match slice_size [c08_z_of_dec a; c08_z_of_dec b; c08_z_of_dec s] (c08_z_of_dec n) with
+            | None -> "P" | Some v -> c08_dec_of_z v) in
+        go (k - 1) r (v :: acc)
+      | _ -> failwith "bad SSLIST" in
+  String.concat " " (go k r [])
 let c08_mh1all (_ : Float64.t arith) (toks : string list) : string =
   let z = c08_z_of_int in
   let (l, nmax) = c08_box toks (fun a b s n -> c08_fmt_hs (make_hyperslab [Some [z a; z b; z s]] [z n])) in
